@@ -87,4 +87,34 @@ def dialectRetyped : List (List Char × Scalar) :=
    (c!"1_000", .int 1000), (c!"1e3", .float c!"1000"), (c!".inf", .float c!"+Inf"), (c!".NaN", .float c!"NaN"),
    (c!"2001-12-14", .time), (c!"true", .bool true), (c!"08", .float c!"8")]
 
+/-! ## references to environment variables in the file
+
+The file may take a value from an environment variable of any name (`password: "${PW}"`, documented). The reference
+is resolved in the TEXT of the file before YAML reads it (`Model/ConfigYaml.lean substitute`), by the loader and by the
+validation alike. The property then demands of such a file what it demands of every file: it is equivalent to the file
+that says the contents literally at the same place, and to the property's own variable carrying the same text. -/
+
+/-- what the loader makes of `key: text` of a file that refers to variables (`koanfFromYaml`: `envsubst.EvalEnv`, then
+    YAML) -/
+def loaderReadsRef (vs : Vars) (t : List Char) : Option Scalar := readRefText vs t
+/-- what `ValidateConfig` makes of it (`envsubst.EvalEnv`, then YAML: `fixes/C20-3.patch`, in /repo) -/
+def validatorReadsRef (vs : Vars) (t : List Char) : Option Scalar := readRefText vs t
+
+/-- `${NAME}` -/
+def plainRef (n : List Char) : List Char := '$' :: '{' :: (n ++ ['}'])
+/-- `"text"` -/
+def dquoted (t : List Char) : List Char := '"' :: (t ++ ['"'])
+/-- `'text'` -/
+def squoted (t : List Char) : List Char := '\'' :: (t ++ ['\''])
+
+/-- contents that may stand between double quotes as they are (no quote, no escape, one line) -/
+def dquoteSafe (v : List Char) : Bool := v.all fun c => c != '"' && c != '\\' && c != '\n'
+/-- contents that may stand between single quotes as they are -/
+def squoteSafe (v : List Char) : Bool := v.all fun c => c != '\'' && c != '\n'
+def noDollar (t : List Char) : Bool := t.all fun c => c != '$'
+
+/-- the file says `text` (with references) at a leaf of type `lt` where the schema wants `want` -/
+def fileOutcomeRef (lt : LeafType) (want : JsonType) (vs : Vars) (t : List Char) : Option Outcome :=
+  (validatorReadsRef vs t).bind fun v => (loaderReadsRef vs t).map fun l => fileOutcome lt want v l
+
 end Heimdall.Config
